@@ -1,20 +1,22 @@
 //! C13 — SMO solver of linfa-svm.
 //!
 //! * `step`  — scripted update / swap / reconstruct / shrink / select sequences on the private
-//!             `SolverState` (stepper hook), state dumped after every step; compared bit-for-bit
-//!             with the Lean model, and checked against the bookkeeping invariants recomputed
-//!             from the original problem (oracle).
-//! * `solve` — full `solve()` on small problems with shrinking on/off; published alpha, rho,
-//!             objective, iteration count and separating hyperplane compared bit-for-bit; KKT oracle.
-//! * `#fit`  — public-API fits (C / nu classification, one-class, eps / nu regression, kernels,
-//!             shrinking on/off, f32/f64); oracle only: box, equality, KKT margins, decision value
-//!             from the published coefficients, label = sign, Platt monotone, nsupport.
+//!             `SolverState` (generic stepper hook: f64 and f32, the three permutable kernels,
+//!             with and without `nu_constraint`), state dumped after every step; compared
+//!             bit-for-bit with the Lean model (run on `Float` / `Float32`), and checked against
+//!             the bookkeeping invariants recomputed from the original problem (oracle).
+//! * `solve` — full `solve()` on small problems with shrinking on/off; published alpha, rho, r,
+//!             objective, iteration count, separating hyperplane, `nsupport()` and
+//!             `weighted_sum()` at query points compared bit-for-bit; KKT oracle (plain and nu form).
+//! * `#fit`  — public-API fits (c13_fit.rs), oracle only.
 use crate::util::*;
-use linfa::dataset::{Dataset, Pr};
-use linfa::traits::{Fit, Predict};
-use linfa_svm::verif_hooks_c13::{Dump, Solved, Stepper};
-use linfa_svm::Svm;
+use linfa_kernel::KernelMethod;
+use linfa_svm::verif_hooks_c13::Dump;
+use linfa_svm::verif_hooks_c13g::{solved, KernelKind, StepperG};
 use ndarray::{Array1, Array2};
+
+#[path = "c13_fit.rs"]
+mod fit;
 
 // ------------------------------------------------------------------------------------------
 // scripted problems for the stepper
@@ -22,21 +24,34 @@ use ndarray::{Array1, Array2};
 
 #[derive(Clone)]
 struct Prob {
+    /// number of variables (`2 m` for the regression kernel)
     n: usize,
+    /// samples: rows of `x`, size of `k`
     x: Vec<Vec<f64>>,
     k: Vec<Vec<f64>>,
     linear: bool,
+    /// tag `weighted_sum` evaluates: 0 linear, 1 a tag unrelated to `k`, 2 `Polynomial(1, 2)`
+    meth: u8,
+    /// 0 `PermutableKernel`, 1 `PermutableKernelOneClass`, 2 `PermutableKernelRegression`
+    km: u8,
+    nu: bool,
+    f32_: bool,
     y: Vec<bool>,
     p: Vec<f64>,
     b: Vec<f64>,
     a0: Vec<f64>,
     eps: f64,
+    q: Vec<Vec<f64>>,
+    tiny_bounds: bool,
 }
 
 impl Prob {
+    fn m(&self) -> usize {
+        self.x.len()
+    }
     fn header(&self) -> String {
         format!(
-            "n={} lin={} X={} K={} y={} p={} b={} a0={} eps={}",
+            "n={} lin={} X={} K={} y={} p={} b={} a0={} eps={} km={} nu={} f={} meth={} q={}",
             self.n,
             self.linear as u8,
             list2(self.x.iter().map(|r| r.iter()), |v| hex64(*v)),
@@ -45,22 +60,51 @@ impl Prob {
             list(self.p.iter(), |v| hex64(*v)),
             list(self.b.iter(), |v| hex64(*v)),
             list(self.a0.iter(), |v| hex64(*v)),
-            hex64(self.eps)
+            hex64(self.eps),
+            self.km,
+            self.nu as u8,
+            if self.f32_ { 32 } else { 64 },
+            self.meth,
+            if self.q.is_empty() { "none".to_string() } else { list2(self.q.iter().map(|r| r.iter()), |v| hex64(*v)) },
         )
     }
     fn bounds_class(&self) -> &'static str {
-        if self.b.iter().all(|v| *v == self.b[0]) {
+        if self.tiny_bounds {
+            "tiny"
+        } else if self.b.iter().all(|v| *v == self.b[0]) {
             "equal"
         } else {
             "unequal"
         }
     }
-    fn q(&self, i: usize, j: usize) -> f64 {
-        if self.y[i] != self.y[j] {
-            -self.k[i][j]
+    /// configuration class shared by the oracle clauses of `step` and `solve`
+    fn cfg(&self) -> String {
+        format!("km={}:nu={}:f={}:bounds={}", self.km, self.nu as u8, if self.f32_ { 32 } else { 64 }, self.bounds_class())
+    }
+    /// sample behind variable `i`
+    fn smp(&self, i: usize) -> usize {
+        if self.km == 2 {
+            i % self.m()
         } else {
-            self.k[i][j]
+            i
         }
+    }
+    /// Q_ij of the dual the kernel wrapper stands for, from the original problem
+    fn q(&self, i: usize, j: usize) -> f64 {
+        let v = self.k[self.smp(i)][self.smp(j)];
+        let differ = match self.km {
+            0 => self.y[i] != self.y[j],
+            1 => false,
+            _ => (i < self.m()) != (j < self.m()),
+        };
+        if differ {
+            -v
+        } else {
+            v
+        }
+    }
+    fn kdiag(&self, i: usize) -> f64 {
+        self.k[self.smp(i)][self.smp(i)]
     }
     fn ysign(&self, i: usize) -> f64 {
         if self.y[i] {
@@ -69,69 +113,187 @@ impl Prob {
             -1.0
         }
     }
-    fn dataset(&self) -> Array2<f64> {
-        let d = self.x[0].len();
-        Array2::from_shape_fn((self.n, d), |(i, j)| self.x[i][j])
+    /// relative accuracy the oracle grants to values the solver maintained incrementally
+    fn rel(&self) -> f64 {
+        if self.f32_ {
+            4e-5
+        } else {
+            1e-9
+        }
     }
-    fn kernel(&self) -> Array2<f64> {
-        Array2::from_shape_fn((self.n, self.n), |(i, j)| self.k[i][j])
+    fn feps(&self) -> f64 {
+        if self.f32_ {
+            f32::EPSILON as f64
+        } else {
+            f64::EPSILON
+        }
     }
 }
 
-fn gen_prob(rng: &mut Rng, nmax: usize, psd_only: bool) -> Prob {
-    let n = 2 + rng.below(nmax - 1);
+fn gen_prob(rng: &mut Rng, nmax: usize, psd_only: bool, for_solve: bool) -> Prob {
+    let km: u8 = match rng.below(20) {
+        0..=11 => 0,
+        12..=14 => 1,
+        _ => 2,
+    };
+    let f32_ = rng.chance(1, 4);
+    let nu = rng.chance(1, 4) && km != 1; // calculate_rho_nu needs both classes (NaN otherwise)
+    let m = if km == 2 { 1 + rng.below((nmax / 2).max(1)) } else { 2 + rng.below(nmax - 1) };
+    let n = if km == 2 { 2 * m } else { m };
     let d = 1 + rng.below(3);
     let span = *rng.pick(&[1i64, 2, 3]);
-    let mut x: Vec<Vec<f64>> = (0..n).map(|_| (0..d).map(|_| rng.range(-span, span) as f64).collect()).collect();
+    let mut x: Vec<Vec<f64>> = (0..m).map(|_| (0..d).map(|_| rng.range(-span, span) as f64).collect()).collect();
     // duplicated points
-    if n > 2 && rng.chance(1, 3) {
-        let a = rng.below(n);
-        let b = rng.below(n);
+    if m > 2 && rng.chance(1, 3) {
+        let a = rng.below(m);
+        let b = rng.below(m);
         x[a] = x[b].clone();
     }
     let kind = if psd_only { rng.below(2) } else { rng.below(3) };
     let dot = |a: &Vec<f64>, b: &Vec<f64>| a.iter().zip(b.iter()).map(|(u, v)| u * v).sum::<f64>();
-    let (k, linear): (Vec<Vec<f64>>, bool) = match kind {
-        0 => ((0..n).map(|i| (0..n).map(|j| dot(&x[i], &x[j])).collect()).collect(), true),
-        1 => ((0..n).map(|i| (0..n).map(|j| (dot(&x[i], &x[j]) + 1.0) * (dot(&x[i], &x[j]) + 1.0)).collect()).collect(), false),
+    let (k, linear, meth): (Vec<Vec<f64>>, bool, u8) = match kind {
+        0 => ((0..m).map(|i| (0..m).map(|j| dot(&x[i], &x[j])).collect()).collect(), true, 0),
+        1 => ((0..m).map(|i| (0..m).map(|j| (dot(&x[i], &x[j]) + 1.0) * (dot(&x[i], &x[j]) + 1.0)).collect()).collect(), false, 2),
         _ => {
             // arbitrary symmetric integer matrix (may be indefinite: exercises the 1e-10 guard)
-            let mut m = vec![vec![0.0; n]; n];
-            for i in 0..n {
-                for j in i..n {
+            let mut mm = vec![vec![0.0; m]; m];
+            for i in 0..m {
+                for j in i..m {
                     let v = rng.range(-3, 4) as f64;
-                    m[i][j] = v;
-                    m[j][i] = v;
+                    mm[i][j] = v;
+                    mm[j][i] = v;
                 }
             }
-            (m, false)
+            (mm, false, 1)
         }
     };
-    let mut y: Vec<bool> = (0..n).map(|_| rng.coin()).collect();
-    if y.iter().all(|v| *v) {
-        y[0] = false;
+    let mut y: Vec<bool> = match km {
+        0 => (0..n).map(|_| rng.coin()).collect(),
+        1 => vec![true; n],
+        _ => (0..n).map(|i| i < m).collect(),
+    };
+    if km == 0 {
+        if y.iter().all(|v| *v) {
+            y[0] = false;
+        }
+        if y.iter().all(|v| !*v) {
+            y[0] = true;
+        }
     }
-    if y.iter().all(|v| !*v) {
-        y[0] = true;
-    }
-    let p: Vec<f64> = if rng.chance(2, 3) { vec![-1.0; n] } else { (0..n).map(|_| rng.range(-3, 3) as f64).collect() };
+    let fe = if f32_ { f32::EPSILON as f64 } else { f64::EPSILON };
     let cs = [0.25, 0.5, 1.0, 2.0, 4.0];
-    let b: Vec<f64> = match rng.below(4) {
-        0 => vec![*rng.pick(&cs); n],
-        1 | 2 => {
-            let cp = *rng.pick(&cs);
-            let cn = *rng.pick(&cs);
-            y.iter().map(|t| if *t { cp } else { cn }).collect()
+    // bounds around the support-vector threshold 100 eps (solve only): coefficients that sit at
+    // such a bound are the ones on which the three `100 eps` filters of the code must agree
+    let tiny_bounds = for_solve && !nu && rng.chance(1, 5);
+    let b: Vec<f64> = if tiny_bounds {
+        let ts = [4.0 * fe, 16.0 * fe, 32.0 * fe, 64.0 * fe, 128.0 * fe, 256.0 * fe, 512.0 * fe, 2048.0 * fe, 1.0, 1.0, 2.0, 0.5];
+        (0..n).map(|_| *rng.pick(&ts)).collect()
+    } else if nu && rng.chance(2, 3) {
+        vec![1.0; n]
+    } else {
+        match rng.below(4) {
+            0 => vec![*rng.pick(&cs); n],
+            1 | 2 => {
+                let cp = *rng.pick(&cs);
+                let cn = *rng.pick(&cs);
+                y.iter().map(|t| if *t { cp } else { cn }).collect()
+            }
+            _ => (0..n).map(|_| *rng.pick(&cs)).collect(),
         }
-        _ => (0..n).map(|_| *rng.pick(&cs)).collect(),
     };
-    let a0: Vec<f64> = if rng.chance(1, 2) {
+    let p: Vec<f64> = if km == 2 && rng.chance(3, 4) {
+        // fit_epsilon / regression::fit_nu: eps -/+ target
+        let e = if nu { 0.0 } else { *rng.pick(&[0.0, 0.25, 0.5]) };
+        let t: Vec<f64> = (0..m).map(|_| rng.range(-8, 8) as f64 / 4.0).collect();
+        (0..n).map(|i| if i < m { e - t[i] } else { e + t[i - m] }).collect()
+    } else if nu || km == 1 {
+        if rng.chance(2, 3) {
+            vec![0.0; n]
+        } else {
+            (0..n).map(|_| rng.range(-3, 3) as f64).collect()
+        }
+    } else if rng.chance(2, 3) {
+        vec![-1.0; n]
+    } else {
+        (0..n).map(|_| rng.range(-3, 3) as f64).collect()
+    };
+    let a0: Vec<f64> = if nu && rng.chance(2, 3) {
+        // classification::fit_nu: fill each class up to nu n / 2
+        let npos = y.iter().filter(|v| **v).count();
+        let cap = npos.min(n - npos) as f64;
+        let half = *rng.pick(&[0.25, 0.5, 0.75, 1.0]) * cap;
+        let (mut sp, mut sn) = (half, half);
+        (0..n)
+            .map(|i| {
+                let s = if y[i] { &mut sp } else { &mut sn };
+                let v = s.min(b[i]);
+                *s -= v;
+                v
+            })
+            .collect()
+    } else if km == 1 && rng.chance(2, 3) {
+        // fit_one_class: the first nu n variables at the bound
+        let tot = *rng.pick(&[0.25, 0.5, 0.75]) * n as f64;
+        let mut s = tot;
+        (0..n)
+            .map(|i| {
+                let v = s.min(b[i]);
+                s -= v;
+                v
+            })
+            .collect()
+    } else if rng.chance(1, 2) {
         vec![0.0; n]
     } else {
         (0..n).map(|i| *rng.pick(&[0.0, 0.0, b[i] / 2.0, b[i]])).collect()
     };
-    let eps = *rng.pick(&[0.001, 0.125, 0.5]);
-    Prob { n, x, k, linear, y, p, b, a0, eps }
+    let eps0 = *rng.pick(&[0.001, 0.125, 0.5]);
+    let eps = if f32_ { (eps0 as f32) as f64 } else { eps0 };
+    // query points for weighted_sum: one training row, two lattice points (seen or not)
+    let q: Vec<Vec<f64>> = if for_solve && meth != 1 {
+        let mut q = vec![x[rng.below(m)].clone()];
+        for _ in 0..2 {
+            q.push((0..d).map(|_| rng.range(-span - 1, span + 1) as f64).collect());
+        }
+        q
+    } else {
+        vec![]
+    };
+    Prob { n, x, k, linear, meth, km, nu, f32_, y, p, b, a0, eps, q, tiny_bounds }
+}
+
+fn stepper<'a, F: linfa::Float>(pr: &Prob, ds: &'a Array2<F>, shrinking: bool) -> StepperG<'a, F> {
+    let c = |v: &f64| F::cast(*v);
+    let m = pr.m();
+    let kernel = Array2::from_shape_fn((m, m), |(i, j)| F::cast(pr.k[i][j]));
+    let method = match pr.meth {
+        0 => KernelMethod::Linear,
+        2 => KernelMethod::Polynomial(F::one(), F::cast(2.0)),
+        _ => KernelMethod::Gaussian(F::one()),
+    };
+    let kind = match pr.km {
+        0 => KernelKind::Class,
+        1 => KernelKind::OneClass,
+        _ => KernelKind::Regression,
+    };
+    StepperG::new(
+        kind,
+        kernel,
+        method,
+        ds.view(),
+        pr.a0.iter().map(c).collect(),
+        pr.p.iter().map(c).collect(),
+        pr.y.clone(),
+        pr.b.iter().map(c).collect(),
+        F::cast(pr.eps),
+        shrinking,
+        pr.nu,
+    )
+}
+
+fn dataset<F: linfa::Float>(pr: &Prob) -> Array2<F> {
+    let d = pr.x[0].len();
+    Array2::from_shape_fn((pr.m(), d), |(i, j)| F::cast(pr.x[i][j]))
 }
 
 fn dump_str(d: &Dump) -> String {
@@ -150,13 +312,29 @@ fn dump_str(d: &Dump) -> String {
     )
 }
 
-fn close(a: f64, b: f64, scale: f64) -> bool {
-    (a - b).abs() <= 1e-9 * (1.0 + scale.abs() + a.abs().max(b.abs()))
+fn close(a: f64, b: f64, scale: f64, rel: f64) -> bool {
+    (a - b).abs() <= rel * (1.0 + scale.abs() + a.abs().max(b.abs()))
+}
+
+/// per-class sums of the variables (the two equality constraints of the nu duals)
+fn class_sums(pr: &Prob, s: &[usize], alpha: &[f64]) -> (f64, f64) {
+    let mut sp = 0.0;
+    let mut sn = 0.0;
+    for k in 0..pr.n {
+        if pr.y[s[k]] {
+            sp += alpha[k]
+        } else {
+            sn += alpha[k]
+        }
+    }
+    (sp, sn)
 }
 
 /// bookkeeping invariants of the solver state, recomputed from the original problem
+#[allow(clippy::too_many_arguments)]
 fn oracle_state(ctx: &mut Ctx, pr: &Prob, d: &Dump, class: &str, at: &str, after_reconstruct: bool, after_shrink: bool, ysum0: f64) {
     let n = pr.n;
+    let rel = pr.rel();
     let mut seen = vec![false; n];
     let mut perm = d.active_set.len() == n;
     for &s in &d.active_set {
@@ -176,8 +354,8 @@ fn oracle_state(ctx: &mut Ctx, pr: &Prob, d: &Dump, class: &str, at: &str, after
         ctx.require(d.p[k] == pr.p[s[k]] && d.targets[k] == pr.y[s[k]], "aligned_p_y", class, || format!("{}: position {} holds sample {} but p/y of another", at, k, s[k]));
         ctx.require(d.bounds[k] == pr.b[s[k]], "aligned_bounds", class, || format!("{}: position {} holds sample {} (bound {}) but bounds[{}]={}", at, k, s[k], pr.b[s[k]], k, d.bounds[k]));
         ctx.require(d.alpha_ub[k] == pr.b[s[k]], "aligned_alpha_bound", class, || format!("{}: position {} sample {} bound {} but Alpha.upper_bound {}", at, k, s[k], pr.b[s[k]], d.alpha_ub[k]));
-        let okq = (0..n).all(|l| d.q_rows[k][l] == pr.q(s[k], s[l])) && d.q_diag[k] == pr.k[s[k]][s[k]];
-        ctx.require(okq, "aligned_kernel", class, || format!("{}: kernel row at position {} is not the row of sample {}", at, k, s[k]));
+        let okq = (0..n).all(|l| d.q_rows[k][l] == pr.q(s[k], s[l])) && d.q_diag[k] == pr.kdiag(s[k]);
+        ctx.require(okq, "aligned_kernel", class, || format!("{}: kernel row at position {} is not the row of variable {}", at, k, s[k]));
     }
     // feasibility
     let mut ysum = 0.0;
@@ -189,16 +367,18 @@ fn oracle_state(ctx: &mut Ctx, pr: &Prob, d: &Dump, class: &str, at: &str, after
         ysum += pr.ysign(s[k]) * a;
         scale = scale.max(bb);
     }
-    ctx.require(close(ysum, ysum0, scale * n as f64), "equality", class, || format!("{}: sum y*alpha = {} but was {} initially", at, ysum, ysum0));
+    ctx.require(close(ysum, ysum0, scale * n as f64, rel), "equality", class, || format!("{}: sum y*alpha = {} but was {} initially", at, ysum, ysum0));
     // gradient of the active variables; G_bar of all variables
     let full_grad = |k: usize| -> f64 { pr.p[s[k]] + (0..n).map(|l| pr.q(s[k], s[l]) * d.alpha[l]).sum::<f64>() };
     let gbar = |k: usize| -> f64 { (0..n).filter(|l| d.alpha[*l] >= pr.b[s[*l]]).map(|l| pr.q(s[k], s[l]) * pr.b[s[l]]).sum::<f64>() };
     let gs: f64 = (0..n).map(|k| full_grad(k).abs()).fold(0.0, f64::max) + (0..n).map(|k| gbar(k).abs()).fold(0.0, f64::max);
+    // in f32 the steps taken so far may have moved the gradient by more than its present size
+    let gs = gs + if pr.f32_ { (0..n).map(|k| (0..n).map(|l| (pr.q(k, l) * pr.b[l]).abs()).sum::<f64>()).fold(0.0, f64::max) } else { 0.0 };
     for k in 0..d.nactive.min(n) {
-        ctx.require(close(d.gradient[k], full_grad(k), gs), "gradient_active", class, || format!("{}: gradient of active position {} (sample {}) = {} but p + Q alpha = {}", at, k, s[k], d.gradient[k], full_grad(k)));
+        ctx.require(close(d.gradient[k], full_grad(k), gs, rel), "gradient_active", class, || format!("{}: gradient of active position {} (sample {}) = {} but p + Q alpha = {}", at, k, s[k], d.gradient[k], full_grad(k)));
     }
     for k in 0..n {
-        ctx.require(close(d.gradient_fixed[k], gbar(k), gs), "gradient_fixed", class, || format!("{}: gradient_fixed at position {} (sample {}) = {} but sum over upper-bounded = {}", at, k, s[k], d.gradient_fixed[k], gbar(k)));
+        ctx.require(close(d.gradient_fixed[k], gbar(k), gs, rel), "gradient_fixed", class, || format!("{}: gradient_fixed at position {} (sample {}) = {} but sum over upper-bounded = {}", at, k, s[k], d.gradient_fixed[k], gbar(k)));
     }
     let inactive_at_bound = (d.nactive.min(n)..n).all(|k| d.alpha[k] == 0.0 || d.alpha[k] >= pr.b[s[k]]);
     if after_shrink {
@@ -206,17 +386,20 @@ fn oracle_state(ctx: &mut Ctx, pr: &Prob, d: &Dump, class: &str, at: &str, after
     }
     if after_reconstruct && inactive_at_bound {
         for k in 0..n {
-            ctx.require(close(d.gradient[k], full_grad(k), gs), "gradient_reconstructed", class, || format!("{}: after reconstruct_gradient position {} (sample {}) has {} but p + Q alpha = {}", at, k, s[k], d.gradient[k], full_grad(k)));
+            ctx.require(close(d.gradient[k], full_grad(k), gs, rel), "gradient_reconstructed", class, || format!("{}: after reconstruct_gradient position {} (sample {}) has {} but p + Q alpha = {}", at, k, s[k], d.gradient[k], full_grad(k)));
         }
     }
 }
 
-/// generalised KKT check of `min 1/2 a'Qa + p'a, y'a = const, 0<=a<=b` at the published point
-fn oracle_kkt(ctx: &mut Ctx, pr: &Prob, alpha: &[f64], rho: f64, class: &str) {
+/// generalised KKT check of `min 1/2 a'Qa + p'a, y'a = const (, e'a = const), 0<=a<=b` at the
+/// published point (`alpha` per variable, before the regression fold)
+fn oracle_kkt(ctx: &mut Ctx, pr: &Prob, alpha: &[f64], rho: f64, r: Option<f64>, iterations: usize, class: &str) {
     let n = pr.n;
     let g: Vec<f64> = (0..n).map(|i| pr.p[i] + (0..n).map(|j| pr.q(i, j) * alpha[j]).sum::<f64>()).collect();
     let gs = g.iter().fold(0.0f64, |m, v| m.max(v.abs()));
-    let tol = pr.eps + 1e-9 * (1.0 + gs);
+    // f32: every iteration adds rounding errors of the size of the moved gradient mass
+    let gq = (0..n).map(|k| (0..n).map(|l| (pr.q(k, l) * pr.b[l]).abs()).sum::<f64>()).fold(0.0, f64::max);
+    let tol = pr.eps + if pr.f32_ { 2.0 * pr.feps() * (1.0 + gs + gq) * (4.0 + iterations as f64) } else { 1e-9 * (1.0 + gs) };
     let mut ysum = 0.0;
     let mut ysum0 = 0.0;
     for i in 0..n {
@@ -225,16 +408,40 @@ fn oracle_kkt(ctx: &mut Ctx, pr: &Prob, alpha: &[f64], rho: f64, class: &str) {
         ysum0 += pr.ysign(i) * pr.a0[i];
     }
     let bs = pr.b.iter().fold(0.0f64, |m, v| m.max(*v));
-    ctx.require(close(ysum, ysum0, bs * n as f64), "equality", class, || format!("sum y*alpha = {} but the start had {}", ysum, ysum0));
-    for i in 0..n {
-        let v = -pr.ysign(i) * g[i] + rho; // -y G - b with b = -rho
-        let in_up = if pr.y[i] { alpha[i] < pr.b[i] } else { alpha[i] > 0.0 };
-        let in_low = if pr.y[i] { alpha[i] > 0.0 } else { alpha[i] < pr.b[i] };
-        if in_up {
-            ctx.require(v <= tol, "kkt", class, || format!("sample {} (alpha {} of {}, y {}) violates KKT: -yG+rho = {} > tol {}", i, alpha[i], pr.b[i], pr.ysign(i), v, tol));
+    ctx.require(close(ysum, ysum0, bs * n as f64, pr.rel()), "equality", class, || format!("sum y*alpha = {} but the start had {}", ysum, ysum0));
+    match r {
+        None => {
+            for i in 0..n {
+                let v = -pr.ysign(i) * g[i] + rho; // -y G - b with b = -rho
+                let in_up = if pr.y[i] { alpha[i] < pr.b[i] } else { alpha[i] > 0.0 };
+                let in_low = if pr.y[i] { alpha[i] > 0.0 } else { alpha[i] < pr.b[i] };
+                if in_up {
+                    ctx.require(v <= tol, "kkt", class, || format!("sample {} (alpha {} of {}, y {}) violates KKT: -yG+rho = {} > tol {}", i, alpha[i], pr.b[i], pr.ysign(i), v, tol));
+                }
+                if in_low {
+                    ctx.require(v >= -tol, "kkt", class, || format!("sample {} (alpha {} of {}, y {}) violates KKT: -yG+rho = {} < -tol {}", i, alpha[i], pr.b[i], pr.ysign(i), v, tol));
+                }
+            }
         }
-        if in_low {
-            ctx.require(v >= -tol, "kkt", class, || format!("sample {} (alpha {} of {}, y {}) violates KKT: -yG+rho = {} < -tol {}", i, alpha[i], pr.b[i], pr.ysign(i), v, tol));
+        Some(r) => {
+            // two equality constraints: every class keeps its own sum and has its own multiplier
+            let id: Vec<usize> = (0..n).collect();
+            let (sp, sn) = class_sums(pr, &id, alpha);
+            let (sp0, sn0) = class_sums(pr, &id, &pr.a0);
+            ctx.require(close(sp, sp0, bs * n as f64, pr.rel()) && close(sn, sn0, bs * n as f64, pr.rel()), "equality_nu", class, || format!("class sums ({}, {}) but the start had ({}, {})", sp, sn, sp0, sn0));
+            let (r1, r2) = (r + rho, r - rho);
+            for i in 0..n {
+                let ri = if pr.y[i] { r1 } else { r2 };
+                if !ri.is_finite() {
+                    continue; // a class without free and without opposite-bound variables: multiplier unbounded
+                }
+                if alpha[i] < pr.b[i] {
+                    ctx.require(g[i] >= ri - tol, "kkt_nu", class, || format!("sample {} (alpha {} of {}, y {}) violates KKT: G = {} < r_class {} - tol {}", i, alpha[i], pr.b[i], pr.ysign(i), g[i], ri, tol));
+                }
+                if alpha[i] > 0.0 {
+                    ctx.require(g[i] <= ri + tol, "kkt_nu", class, || format!("sample {} (alpha {} of {}, y {}) violates KKT: G = {} > r_class {} + tol {}", i, alpha[i], pr.b[i], pr.ysign(i), g[i], ri, tol));
+                }
+            }
         }
     }
 }
@@ -263,560 +470,202 @@ fn script_str(sc: &[StepOp]) -> String {
         .join(",")
 }
 
-fn op_step(em: &mut Em, pr: &Prob, sc: &[StepOp]) {
-    let op = format!("step {} script={}", pr.header(), script_str(sc));
-    let bc = pr.bounds_class();
-    em.case_valid(op, &format!("step:bounds={}", bc), |ctx| {
-        let ds = pr.dataset();
-        let mut st = Stepper::new(pr.kernel(), pr.linear, ds.view(), pr.a0.clone(), pr.p.clone(), pr.y.clone(), pr.b.clone(), pr.eps, true, false);
-        let ysum0: f64 = (0..pr.n).map(|i| pr.ysign(i) * pr.a0[i]).sum();
-        let mut out = vec![];
-        let mut shrunk = false;
-        let d0 = st.dump();
-        oracle_state(ctx, pr, &d0, &format!("step:shrink=0:bounds={}", bc), "after new", true, false, ysum0);
-        out.push(dump_str(&d0));
-        for (t, o) in sc.iter().enumerate() {
-            let mut extra = String::new();
-            let mut rec = false;
-            let mut shr = false;
-            match *o {
-                StepOp::U(a, b) => {
-                    let na = st.dump().nactive;
-                    if na >= 2 {
-                        let i = a % na;
-                        let mut j = b % na;
-                        if i == j {
-                            j = (i + 1) % na;
-                        }
-                        st.update(i, j);
+fn run_step<F: linfa::Float>(ctx: &mut Ctx, pr: &Prob, sc: &[StepOp]) -> String {
+    let cfg = pr.cfg();
+    let ds = dataset::<F>(pr);
+    let mut st = stepper::<F>(pr, &ds, true);
+    let w = |v: F| v.to_f64().unwrap();
+    let ysum0: f64 = (0..pr.n).map(|i| pr.ysign(i) * pr.a0[i]).sum();
+    let mut out = vec![];
+    let mut shrunk = false;
+    let d0 = st.dump();
+    oracle_state(ctx, pr, &d0, &format!("step:shrink=0:{}", cfg), "after new", true, false, ysum0);
+    out.push(dump_str(&d0));
+    for (t, o) in sc.iter().enumerate() {
+        let mut extra = String::new();
+        let mut rec = false;
+        let mut shr = false;
+        let before = st.dump();
+        let mut selected = None;
+        match *o {
+            StepOp::U(a, b) => {
+                let na = before.nactive;
+                if na >= 2 {
+                    let i = a % na;
+                    let mut j = b % na;
+                    if i == j {
+                        j = (i + 1) % na;
                     }
-                }
-                StepOp::S(a, b) => {
-                    shrunk = true;
-                    let na = st.dump().nactive;
-                    if na >= 1 {
-                        st.swap(a % na, b % na)
-                    }
-                }
-                StepOp::R => {
-                    rec = true;
-                    st.reconstruct_gradient()
-                }
-                StepOp::D => {
-                    shrunk = true;
-                    shr = true;
-                    st.do_shrinking()
-                }
-                StepOp::W => {
-                    let (i, j, opt) = st.select_working_set();
-                    extra = format!("/W={}.{}.{}", i, j, opt as u8);
-                    if !opt {
-                        st.update(i, j);
-                    }
-                }
-                StepOp::H => {
-                    let r = st.calculate_rho();
-                    extra = format!("/R={}", hex64c(r));
+                    st.update(i, j);
                 }
             }
-            let d = st.dump();
-            let class = format!("step:shrink={}:bounds={}", shrunk as u8, bc);
-            oracle_state(ctx, pr, &d, &class, &format!("after step {} ({})", t, script_str(&[*o])), rec, shr, ysum0);
-            out.push(format!("{}{}", dump_str(&d), extra));
+            StepOp::S(a, b) => {
+                shrunk = true;
+                let na = before.nactive;
+                if na >= 1 {
+                    st.swap(a % na, b % na)
+                }
+            }
+            StepOp::R => {
+                rec = true;
+                st.reconstruct_gradient()
+            }
+            StepOp::D => {
+                shrunk = true;
+                shr = true;
+                st.do_shrinking()
+            }
+            StepOp::W => {
+                let (i, j, opt) = st.select_working_set();
+                extra = format!("/W={}.{}.{}", i, j, opt as u8);
+                if !opt {
+                    selected = Some((i, j));
+                    st.update(i, j);
+                }
+            }
+            StepOp::H => {
+                let r = st.calculate_rho();
+                extra = format!("/R={}", hex64c(w(r)));
+                if pr.nu {
+                    extra.push_str(&format!("/r={}", hex64c(w(st.r()))));
+                }
+            }
         }
-        format!("ok {}", out.join(" "))
-    });
+        let d = st.dump();
+        let class = format!("step:shrink={}:{}", shrunk as u8, cfg);
+        let at = format!("after step {} ({})", t, script_str(&[*o]));
+        oracle_state(ctx, pr, &d, &class, &at, rec, shr, ysum0);
+        if let Some((i, j)) = selected {
+            // the pair the selection returns is a legal working pair: distinct active positions;
+            // under nu_constraint both of one class, so that each class keeps its sum
+            ctx.require(i != j && i < before.nactive && j < before.nactive, "working_pair", &class, || format!("{}: select_working_set returned ({}, {}) with nactive {}", at, i, j, before.nactive));
+            if pr.nu {
+                let (sp0, sn0) = class_sums(pr, &before.active_set, &before.alpha);
+                let (sp, sn) = class_sums(pr, &d.active_set, &d.alpha);
+                let sc_ = pr.b.iter().fold(0.0f64, |m, v| m.max(*v)) * pr.n as f64;
+                ctx.require(close(sp, sp0, sc_, pr.rel()) && close(sn, sn0, sc_, pr.rel()), "equality_nu", &class, || format!("{}: class sums ({}, {}) -> ({}, {})", at, sp0, sn0, sp, sn));
+            }
+        }
+        out.push(format!("{}{}", dump_str(&d), extra));
+    }
+    format!("ok {}", out.join(" "))
 }
 
-fn solved_str(s: &Solved) -> String {
-    let w = match (&s.linear, &s.support) {
-        (Some(w), _) => format!("L:{}", list(w.iter(), |v| hex64c(*v))),
-        (_, Some(sv)) => format!("V:{}", if sv.is_empty() { "none".to_string() } else { list2(sv.iter().map(|r| r.iter()), |v| hex64c(*v)) }),
-        _ => "?".to_string(),
-    };
-    format!("ok it={} thr={} A={} rho={} obj={} {}", s.iterations, s.reached_threshold as u8, list(s.alpha.iter(), |v| hex64c(*v)), hex64c(s.rho), hex64c(s.obj), w)
+fn op_step(em: &mut Em, pr: &Prob, sc: &[StepOp]) {
+    let op = format!("step {} script={}", pr.header(), script_str(sc));
+    em.case_valid(op, &format!("step:{}", pr.cfg()), |ctx| if pr.f32_ { run_step::<f32>(ctx, pr, sc) } else { run_step::<f64>(ctx, pr, sc) });
 }
 
 const SOLVE_FUEL: usize = 20000;
 
-fn op_solve(em: &mut Em, pr: &Prob, shrinking: bool) {
-    let op = format!("solve {} shrink={} fuel={}", pr.header(), shrinking as u8, SOLVE_FUEL);
-    let class = format!("solve:shrink={}:bounds={}", shrinking as u8, pr.bounds_class());
-    em.case_valid(op, &class, |ctx| {
-        let ds = pr.dataset();
-        let st = Stepper::new(pr.kernel(), pr.linear, ds.view(), pr.a0.clone(), pr.p.clone(), pr.y.clone(), pr.b.clone(), pr.eps, shrinking, false);
-        let s = st.solve();
-        if s.iterations >= SOLVE_FUEL {
-            return "ok longrun".to_string();
+/// runs `solve()`; `Ok(response)` or `Err(())` when the run did not finish within `SOLVE_FUEL`
+fn run_solve<F: linfa::Float>(ctx: &mut Ctx, pr: &Prob, shrinking: bool, class: &str) -> Result<String, ()> {
+    let w = |v: F| v.to_f64().unwrap();
+    let ds = dataset::<F>(pr);
+    let st = stepper::<F>(pr, &ds, shrinking);
+    let svm = st.solve_svm();
+    let s = solved(&svm);
+    if s.iterations >= SOLVE_FUEL {
+        return Err(());
+    }
+    let m = pr.m();
+    let fe = pr.feps();
+    // per-variable coefficients are not published for regression (folded): feasibility of the fold;
+    // the KKT conditions of regression fits are checked on the public fits (`kkt_residual`)
+    if pr.km == 2 {
+        // the fold itself: |coefficient| <= max bound, sum of coefficients = sum y alpha (kept by every step)
+        let ysum0: f64 = (0..pr.n).map(|i| pr.ysign(i) * pr.a0[i]).sum();
+        let ssum: f64 = s.alpha.iter().sum();
+        let bs = pr.b.iter().fold(0.0f64, |mm, v| mm.max(*v));
+        ctx.require(s.alpha.len() == m, "alpha_len", class, || format!("{} coefficients for {} samples", s.alpha.len(), m));
+        ctx.require(close(ssum, ysum0, bs * pr.n as f64, pr.rel()), "equality", class, || format!("sum of folded coefficients {} but the start had sum y alpha = {}", ssum, ysum0));
+        for i in 0..m {
+            ctx.require(s.alpha[i] <= pr.b[i] && -s.alpha[i] <= pr.b[i + m], "box", class, || format!("folded coefficient {} = {} outside [-{}, {}]", i, s.alpha[i], pr.b[i + m], pr.b[i]));
         }
-        oracle_kkt(ctx, pr, &s.alpha, s.rho, &class);
-        // published separating hyperplane pairs every sample with its own coefficient
-        if let Some(w) = &s.linear {
-            let d = pr.x[0].len();
-            for c in 0..d {
-                let want: f64 = (0..pr.n).map(|i| pr.ysign(i) * s.alpha[i] * pr.x[i][c]).sum();
-                ctx.require(close(w[c], want, want.abs()), "linear_hyperplane", &class, || format!("weight[{}] = {} but sum_i y_i alpha_i x_i = {}", c, w[c], want));
-            }
-        }
-        if let Some(sv) = &s.support {
-            let want: Vec<&Vec<f64>> = (0..pr.n).filter(|i| s.alpha[*i].abs() > 100.0 * f64::EPSILON).map(|i| &pr.x[i]).collect();
-            let same = sv.len() == want.len() && sv.iter().zip(want.iter()).all(|(a, b)| a == *b);
-            ctx.require(same, "support_vectors", &class, || format!("support vectors {:?} are not the rows with non-zero coefficient {:?}", sv, s.alpha));
-        }
-        solved_str(&s)
-    });
-}
-
-// ------------------------------------------------------------------------------------------
-// public-API fits (oracle only)
-// ------------------------------------------------------------------------------------------
-
-#[derive(Clone, Copy, Debug, PartialEq)]
-enum Kern {
-    Linear,
-    Gauss(f64),
-    Poly(f64, f64),
-}
-impl Kern {
-    fn eval(&self, a: &[f64], b: &[f64]) -> f64 {
-        let dot: f64 = a.iter().zip(b.iter()).map(|(x, y)| x * y).sum();
-        match *self {
-            Kern::Linear => dot,
-            Kern::Gauss(e) => {
-                let d: f64 = a.iter().zip(b.iter()).map(|(x, y)| (x - y) * (x - y)).sum();
-                (-d / e).exp()
-            }
-            Kern::Poly(c, d) => (dot + c).powf(d),
+    } else {
+        oracle_kkt(ctx, pr, &s.alpha, s.rho, s.r, s.iterations, class);
+    }
+    ctx.require(s.r.is_some() == pr.nu, "r_published", class, || format!("r = {:?} with nu_constraint = {}", s.r, pr.nu));
+    // sign the linear branch attaches to sample i
+    let st_sign = |i: usize| -> f64 { if pr.km == 0 { pr.ysign(i) } else { 1.0 } };
+    // published separating hyperplane pairs every sample with its own coefficient
+    if let Some(wv) = &s.linear {
+        let d = pr.x[0].len();
+        for c in 0..d {
+            let want: f64 = (0..m).map(|i| st_sign(i) * s.alpha[i] * pr.x[i][c]).sum();
+            let sc_: f64 = (0..m).map(|i| (s.alpha[i] * pr.x[i][c]).abs()).sum();
+            ctx.require(close(wv[c], want, sc_, pr.rel()), "linear_hyperplane", class, || format!("weight[{}] = {} but sum_i y_i alpha_i x_i = {}", c, wv[c], want));
         }
     }
-    fn name(&self) -> &'static str {
-        match self {
-            Kern::Linear => "linear",
-            Kern::Gauss(_) => "gaussian",
-            Kern::Poly(_, _) => "polynomial",
-        }
+    let thr = 100.0 * fe;
+    let nz = s.alpha.iter().filter(|v| v.abs() > thr).count();
+    if let Some(sv) = &s.support {
+        let want: Vec<&Vec<f64>> = (0..m).filter(|i| s.alpha[*i].abs() > thr).map(|i| &pr.x[i]).collect();
+        let same = sv.len() == want.len() && sv.iter().zip(want.iter()).all(|(a, b)| a == *b);
+        ctx.require(same, "support_vectors", class, || format!("support vectors {:?} are not the rows with non-zero coefficient {:?}", sv, s.alpha));
+        ctx.require(sv.len() == svm.nsupport(), "nsupport", class, || format!("nsupport() = {} but {} support vectors are stored (coefficients {:?})", svm.nsupport(), sv.len(), s.alpha));
     }
-}
-
-#[derive(Clone, Copy, Debug, PartialEq)]
-enum Mode {
-    C(f64, f64),
-    Nu(f64),
-    OneClass(f64),
-    EpsSvr(f64, f64),
-    NuSvr(f64, f64),
-}
-impl Mode {
-    fn name(&self) -> &'static str {
-        match self {
-            Mode::C(_, _) => "c_svc",
-            Mode::Nu(_) => "nu_svc",
-            Mode::OneClass(_) => "one_class",
-            Mode::EpsSvr(_, _) => "eps_svr",
-            Mode::NuSvr(_, _) => "nu_svr",
-        }
-    }
-}
-
-struct FitCase {
-    x: Vec<Vec<f64>>,
-    yb: Vec<bool>,
-    yr: Vec<f64>,
-    kern: Kern,
-    mode: Mode,
-    eps: f64,
-    shrinking: bool,
-    f32_: bool,
-    platt: bool,
-    shape: &'static str,
-}
-
-struct Fitted {
-    alpha: Vec<f64>,
-    rho: f64,
-    nsupport: usize,
-    display: String,
-    dec: Vec<f64>,
-    labels: Option<Vec<bool>>,
-    probs: Option<Vec<f32>>,
-}
-
-fn set_kernel<F: linfa::Float, T>(p: linfa_svm::SvmParams<F, T>, k: Kern) -> linfa_svm::SvmParams<F, T> {
-    match k {
-        Kern::Linear => p.linear_kernel(),
-        Kern::Gauss(e) => p.gaussian_kernel(F::cast(e)),
-        Kern::Poly(c, d) => p.polynomial_kernel(F::cast(c), F::cast(d)),
-    }
-}
-
-fn run_fit<F: linfa::Float>(fc: &FitCase) -> Result<Fitted, String>
-where
-    Svm<F, F>: Predict<Array1<F>, F>,
-    linfa_svm::SvmValidParams<F, F>: Fit<Array2<F>, Array1<F>, linfa_svm::SvmError, Object = Svm<F, F>>,
-{
-    let n = fc.x.len();
-    let d = fc.x[0].len();
-    let rec = Array2::from_shape_fn((n, d), |(i, j)| F::cast(fc.x[i][j]));
-    let to64 = |v: F| -> f64 { v.to_f64().unwrap() };
-    match fc.mode {
-        Mode::C(_, _) | Mode::Nu(_) => {
-            let ds = Dataset::new(rec.clone(), Array1::from(fc.yb.clone()));
-            if fc.platt {
-                let p = Svm::<F, Pr>::params().eps(F::cast(fc.eps)).shrinking(fc.shrinking);
-                let p = set_kernel(p, fc.kern);
-                let p = match fc.mode {
-                    Mode::C(a, b) => p.pos_neg_weights(F::cast(a), F::cast(b)),
-                    Mode::Nu(v) => p.nu_weight(F::cast(v)),
-                    _ => unreachable!(),
-                };
-                let m = match p.fit(&ds) {
-                    Ok(m) => m,
-                    Err(e) => return Err(format!("{:?}", e)),
-                };
-                let dec: Vec<f64> = rec.outer_iter().map(|r| to64(m.weighted_sum(&r) - m.rho)).collect();
-                let probs: Vec<f32> = rec.outer_iter().map(|r| *m.predict(r)).collect();
-                Ok(Fitted { alpha: m.alpha.iter().map(|v| to64(*v)).collect(), rho: to64(m.rho), nsupport: m.nsupport(), display: format!("{}", m), dec, labels: None, probs: Some(probs) })
+    ctx.require(svm.nsupport() == nz, "nsupport", class, || format!("nsupport() = {} but {} coefficients are non-zero (> 100 eps): {:?}", svm.nsupport(), nz, s.alpha));
+    // decision value at the query points from the published coefficients
+    let mut ws = vec![];
+    for q in &pr.q {
+        let qa: Array1<F> = Array1::from(q.iter().map(|v| F::cast(*v)).collect::<Vec<F>>());
+        let got = w(svm.weighted_sum(&qa) + F::zero());
+        ws.push(got);
+        let dot = |a: &Vec<f64>| a.iter().zip(q.iter()).map(|(u, v)| u * v).sum::<f64>();
+        let kv = |i: usize| -> f64 {
+            if pr.meth == 0 {
+                dot(&pr.x[i])
             } else {
-                let p = Svm::<F, bool>::params().eps(F::cast(fc.eps)).shrinking(fc.shrinking);
-                let p = set_kernel(p, fc.kern);
-                let p = match fc.mode {
-                    Mode::C(a, b) => p.pos_neg_weights(F::cast(a), F::cast(b)),
-                    Mode::Nu(v) => p.nu_weight(F::cast(v)),
-                    _ => unreachable!(),
-                };
-                let m = match p.fit(&ds) {
-                    Ok(m) => m,
-                    Err(e) => return Err(format!("{:?}", e)),
-                };
-                let dec: Vec<f64> = rec.outer_iter().map(|r| to64(m.weighted_sum(&r) - m.rho)).collect();
-                let labels: Vec<bool> = rec.outer_iter().map(|r| m.predict(r)).collect();
-                Ok(Fitted { alpha: m.alpha.iter().map(|v| to64(*v)).collect(), rho: to64(m.rho), nsupport: m.nsupport(), display: format!("{}", m), dec, labels: Some(labels), probs: None })
-            }
-        }
-        Mode::OneClass(nu) => {
-            let ds = Dataset::new(rec.clone(), Array1::from(vec![(); n]));
-            let p = Svm::<F, Pr>::params().eps(F::cast(fc.eps)).shrinking(fc.shrinking).nu_weight(F::cast(nu));
-            let p = set_kernel(p, fc.kern);
-            let m = match p.fit(&ds) {
-                    Ok(m) => m,
-                    Err(e) => return Err(format!("{:?}", e)),
-                };
-            let dec: Vec<f64> = rec.outer_iter().map(|r| to64(m.weighted_sum(&r) - m.rho)).collect();
-            let labels: Vec<bool> = rec.outer_iter().map(|r| m.predict(r)).collect();
-            Ok(Fitted { alpha: m.alpha.iter().map(|v| to64(*v)).collect(), rho: to64(m.rho), nsupport: m.nsupport(), display: format!("{}", m), dec, labels: Some(labels), probs: None })
-        }
-        Mode::EpsSvr(_, _) | Mode::NuSvr(_, _) => {
-            let ds = Dataset::new(rec.clone(), Array1::from(fc.yr.iter().map(|v| F::cast(*v)).collect::<Vec<F>>()));
-            let p = Svm::<F, F>::params().eps(F::cast(fc.eps)).shrinking(fc.shrinking);
-            let p = set_kernel(p, fc.kern);
-            let p = match fc.mode {
-                Mode::EpsSvr(c, e) => p.c_svr(F::cast(c), Some(F::cast(e))),
-                Mode::NuSvr(nu, c) => p.nu_svr(F::cast(nu), Some(F::cast(c))),
-                _ => unreachable!(),
-            };
-            let m = match p.fit(&ds) {
-                    Ok(m) => m,
-                    Err(e) => return Err(format!("{:?}", e)),
-                };
-            let dec: Vec<f64> = rec.outer_iter().map(|r| to64(m.weighted_sum(&r) - m.rho)).collect();
-            let pred: Vec<f64> = rec.outer_iter().map(|r| to64(m.predict(r.to_owned()))).collect();
-            let _ = pred;
-            Ok(Fitted { alpha: m.alpha.iter().map(|v| to64(*v)).collect(), rho: to64(m.rho), nsupport: m.nsupport(), display: format!("{}", m), dec, labels: None, probs: None })
-        }
-    }
-}
-
-fn gen_points(rng: &mut Rng, n: usize, shape: usize) -> (Vec<Vec<f64>>, Vec<bool>, &'static str) {
-    // 2-D, quarter-integer coordinates (exact in f32 and f64)
-    let q = |rng: &mut Rng, lo: i64, hi: i64| rng.range(lo, hi) as f64 / 4.0;
-    let mut x = vec![];
-    let mut y = vec![];
-    let name = ["separable", "overlapping", "imbalanced", "duplicated"][shape % 4];
-    for i in 0..n {
-        let pos = match shape % 4 {
-            2 => i % 7 == 0,
-            _ => i % 2 == 0,
-        };
-        let (cx, spread) = match shape % 4 {
-            0 => (if pos { 10 } else { -10 }, 6),
-            1 => (if pos { 3 } else { -3 }, 10),
-            2 => (if pos { 6 } else { -4 }, 8),
-            _ => (if pos { 4 } else { -4 }, 3),
-        };
-        x.push(vec![q(rng, cx - spread, cx + spread), q(rng, -spread, spread)]);
-        y.push(pos);
-    }
-    (x, y, name)
-}
-
-fn op_fit(em: &mut Em, rng: &mut Rng, n: usize) {
-    let shape = rng.below(4);
-    let (x, yb, shape_name) = gen_points(rng, n, shape);
-    let f32_ = rng.chance(1, 4);
-    let kern = match rng.below(5) {
-        0 | 1 => Kern::Linear,
-        2 | 3 => Kern::Gauss(*rng.pick(&[0.5, 4.0, 32.0])),
-        _ => Kern::Poly(*rng.pick(&[0.0, 1.0]), *rng.pick(&[2.0, 3.0])),
-    };
-    // regression target: smooth function of the first coordinate + lattice noise
-    let yr: Vec<f64> = x.iter().map(|r| 0.5 * r[0] - 0.25 * r[1] + rng.range(-2, 2) as f64 / 8.0).collect();
-    // badly scaled combinations (cubic kernels, thousands of points) with a huge C run into the
-    // 10^7-iteration cap; they are kept at moderate C so that a check stays within minutes
-    let heavy = n >= 800 || matches!(kern, Kern::Poly(_, _));
-    let cmax = if f32_ { 4.0f64 } else if heavy { 4.0 } else { 1000.0 };
-    let logc = |rng: &mut Rng| -> f64 {
-        let lo = 0.01f64.ln();
-        let hi = cmax.ln();
-        (lo + rng.unit() * (hi - lo)).exp()
-    };
-    let mode = match rng.below(8) {
-        0 | 1 | 2 => {
-            let a = logc(rng);
-            let b = if rng.chance(2, 3) { logc(rng) } else { a };
-            Mode::C(a, b)
-        }
-        3 => {
-            // nu-SVC is feasible iff nu <= 2 min(n+, n-) / n (libsvm rejects the rest up front)
-            let npos = yb.iter().filter(|v| **v).count();
-            let lim = 2.0 * (npos.min(n - npos) as f64) / n as f64;
-            Mode::Nu(*rng.pick(&[0.05, 0.2, 0.5, 0.8]) * lim)
-        }
-        4 => Mode::OneClass(*rng.pick(&[0.05, 0.3, 0.7, 1.0])),
-        5 | 6 => Mode::EpsSvr(logc(rng).min(100.0), *rng.pick(&[0.01, 0.1, 0.5])),
-        _ => Mode::NuSvr(*rng.pick(&[0.1, 0.5, 0.9]), logc(rng).min(100.0)),
-    };
-    let eps = if f32_ { 1e-2 } else if heavy { 1e-3 } else { *rng.pick(&[1e-3, 1e-5]) };
-    let shrinking = rng.coin();
-    let platt = rng.chance(1, 3);
-    let fc = FitCase { x, yb, yr, kern, mode, eps, shrinking, f32_, platt, shape: shape_name };
-    let class = format!("fit:{}:shrink={}", mode.name(), shrinking as u8);
-    let unequal = matches!(mode, Mode::C(a, b) if a != b);
-    let class = if unequal { format!("{}:weights=unequal", class) } else { class };
-    em.count(&format!("fit:{}", mode.name()));
-    em.count(&format!("fit:kernel={}", kern.name()));
-    em.count(&format!("fit:shrink={}", shrinking as u8));
-    em.count(&format!("fit:shape={}", shape_name));
-    em.count(if f32_ { "fit:f32" } else { "fit:f64" });
-    let op = format!(
-        "#fit n={} shape={} kernel={:?} mode={:?} eps={} shrink={} f32={} platt={} x={}",
-        n,
-        shape_name,
-        kern,
-        mode,
-        eps,
-        shrinking as u8,
-        f32_ as u8,
-        platt as u8,
-        list2(fc.x.iter().map(|r| r.iter()), |v| format!("{}", v))
-    )
-    .replace(", ", ":");
-    let t0 = std::time::Instant::now();
-    let opd = op.chars().take(160).collect::<String>();
-    em.case_valid(op, &class, |ctx| {
-        if std::env::var("C13_DEBUG").is_ok() {
-            std::panic::set_hook(Box::new(|i| eprintln!("PANIC {}", i)));
-        }
-        let ft = if fc.f32_ { run_fit::<f32>(&fc) } else { run_fit::<f64>(&fc) };
-        let ft = match ft {
-            Ok(ft) => ft,
-            Err(e) => {
-                // only the Platt calibration (linfa::composing) can refuse here: its Newton line search
-                // reports non-convergence as an error value; the SVM solution itself is not reached
-                ctx.mark_trivial();
-                ctx.require(e.starts_with("Platt("), "fit_error", &class, || format!("fit returned {}", e));
-                return "-".to_string();
+                (dot(&pr.x[i]) + 1.0) * (dot(&pr.x[i]) + 1.0)
             }
         };
-        if std::env::var("C13_DEBUG").is_ok() {
-            eprintln!("mode {:?} kern {:?} n {} shrink {} display {} rho {} nsupport {}\nalpha {:?}\ny {:?}", fc.mode, fc.kern, fc.x.len(), fc.shrinking, ft.display, ft.rho, ft.nsupport, ft.alpha, fc.yb.iter().map(|v| *v as u8).collect::<Vec<_>>());
-        }
-        oracle_fit(ctx, &fc, &ft, &class);
-        "-".to_string()
-    });
-    if std::env::var("C13_TIME").is_ok() && t0.elapsed().as_secs_f64() > 1.0 {
-        eprintln!("{:.1}s {}", t0.elapsed().as_secs_f64(), opd);
-    }
-}
-
-fn oracle_fit(ctx: &mut Ctx, fc: &FitCase, ft: &Fitted, class: &str) {
-    let n = fc.x.len();
-    let fe = if fc.f32_ { f32::EPSILON as f64 } else { f64::EPSILON };
-    if ft.display.starts_with("Reached maximal iterations") {
-        // the iteration cap was hit: the statement's "up to the solver tolerance" does not apply
-        ctx.mark_trivial();
-        return;
-    }
-    ctx.require(ft.alpha.len() == n, "alpha_len", class, || format!("{} coefficients for {} samples", ft.alpha.len(), n));
-    if ft.alpha.len() != n {
-        return;
-    }
-    let a = &ft.alpha;
-    let amax = a.iter().fold(0.0f64, |m, v| m.max(v.abs()));
-    // kernel values in the precision of the run
-    let xr: Vec<Vec<f64>> = fc.x.clone();
-    let kmat: Vec<Vec<f64>> = (0..n).map(|i| (0..n).map(|j| fc.kern.eval(&xr[i], &xr[j])).collect()).collect();
-    let kmax = kmat.iter().flatten().fold(0.0f64, |m, v| m.max(v.abs()));
-    let f: Vec<f64> = (0..n).map(|i| (0..n).map(|j| a[j] * kmat[j][i]).sum::<f64>() - ft.rho).collect();
-    let sumabs: f64 = a.iter().map(|v| v.abs()).sum();
-    if let Mode::Nu(_) = fc.mode {
-        // nu-SVC publishes alpha / r; when the optimal margin r is (numerically) zero the scaled
-        // problem has no finite solution (libsvm divides by r as well) — degenerate, not judged
-        if !(amax * kmax <= 1e6) || !(amax * fc.eps <= 0.05) || !ft.rho.is_finite() {
-            ctx.mark_trivial();
-            return;
-        }
-    }
-    if !ft.rho.is_finite() {
-        // all variables at the upper bound (one-class with nu = 1): rho is unbounded above
-        let same = (0..n).all(|i| ft.dec[i] == f[i] || (ft.dec[i].is_nan() && f[i].is_nan()));
-        ctx.require(same, "decision_value", class, || "decision values differ for an infinite rho".to_string());
-        ctx.require(a.iter().all(|v| *v >= 1.0), "kkt_margin", class, || format!("rho = {} although not every coefficient is at its bound", ft.rho));
-        return;
-    }
-    let noise = 64.0 * fe * (1.0 + sumabs * kmax + ft.rho.abs()) * (n as f64).sqrt();
-    // decision value from the published coefficients
-    for i in 0..n {
-        ctx.require((f[i] - ft.dec[i]).abs() <= noise + 1e-3 * fe.sqrt() * (1.0 + f[i].abs()), "decision_value", class, || {
-            format!("sample {}: weighted_sum - rho = {} but sum_j alpha_j K(x_j,x) - rho = {} (noise {})", i, ft.dec[i], f[i], noise)
+        let want: f64 = (0..m).map(|i| (if pr.linear { st_sign(i) } else { 1.0 }) * s.alpha[i] * kv(i)).sum();
+        let sc_: f64 = (0..m).map(|i| (s.alpha[i] * kv(i)).abs()).sum();
+        let dropped: f64 = (0..m).filter(|i| s.alpha[*i].abs() <= thr).map(|i| (s.alpha[i] * kv(i)).abs()).sum();
+        ctx.require((got - want).abs() <= 16.0 * fe * (1.0 + sc_) * (m as f64) + dropped, "decision_value", class, || {
+            format!("weighted_sum({:?}) = {} but sum_i alpha_i K(x_i, q) = {} from the published coefficients {:?}", q, got, want, s.alpha)
         });
     }
-    // number of support vectors
-    let nz = a.iter().filter(|v| v.abs() > 100.0 * fe).count();
-    ctx.require(nz == ft.nsupport, "nsupport", class, || format!("nsupport {} but {} non-zero coefficients", ft.nsupport, nz));
-    if let Some(lab) = &ft.labels {
-        for i in 0..n {
-            if ft.dec[i].abs() > noise {
-                ctx.require(lab[i] == (ft.dec[i] >= 0.0), "label_sign", class, || format!("sample {} decision {} label {}", i, ft.dec[i], lab[i]));
+    let wstr = match (&s.linear, &s.support) {
+        (Some(wv), _) => format!("L:{}", list(wv.iter(), |v| hex64c(*v))),
+        (_, Some(sv)) => format!("V:{}", if sv.is_empty() { "none".to_string() } else { list2(sv.iter().map(|r| r.iter()), |v| hex64c(*v)) }),
+        _ => "?".to_string(),
+    };
+    Ok(format!(
+        "ok it={} thr={} A={} rho={} obj={} {} r={} ns={} ws={}",
+        s.iterations,
+        s.reached_threshold as u8,
+        list(s.alpha.iter(), |v| hex64c(*v)),
+        hex64c(s.rho),
+        hex64c(s.obj),
+        wstr,
+        match s.r {
+            Some(r) => hex64c(r),
+            None => "-".to_string(),
+        },
+        svm.nsupport(),
+        if ws.is_empty() { "-".to_string() } else { list(ws.iter(), |v| hex64c(*v)) }
+    ))
+}
+
+fn op_solve(em: &mut Em, pr: &Prob, shrinking: bool) -> bool {
+    let op = format!("solve {} shrink={} fuel={}", pr.header(), shrinking as u8, SOLVE_FUEL);
+    let class = format!("solve:shrink={}:{}", shrinking as u8, pr.cfg());
+    let mut finished = true;
+    em.case_valid(op, &class, |ctx| {
+        let r = if pr.f32_ { run_solve::<f32>(ctx, pr, shrinking, &class) } else { run_solve::<f64>(ctx, pr, shrinking, &class) };
+        match r {
+            Ok(s) => s,
+            Err(()) => {
+                // no problem of this size needs 20 000 iterations on the unchanged code (none in any tier / seed)
+                finished = false;
+                ctx.fail("terminates", &class, format!("solve() was still running after {} iterations on {} variables", SOLVE_FUEL, pr.n));
+                "ok longrun".to_string()
             }
         }
-    }
-    if let Some(pr) = &ft.probs {
-        let mut idx: Vec<usize> = (0..n).collect();
-        idx.sort_by(|u, v| ft.dec[*u].partial_cmp(&ft.dec[*v]).unwrap());
-        let inc = idx.windows(2).all(|w| pr[w[0]] <= pr[w[1]] + 1e-6);
-        let dec = idx.windows(2).all(|w| pr[w[0]] + 1e-6 >= pr[w[1]]);
-        ctx.require(inc || dec, "platt_monotone", class, || "calibrated probabilities are not a monotone function of the decision value".to_string());
-        ctx.require(pr.iter().all(|p| *p >= 0.0 && *p <= 1.0), "platt_range", class, || "probability outside [0,1]".to_string());
-    }
-    let tol = fc.eps + noise + 1e-7 * (1.0 + kmax * sumabs);
-    let delta = |c: f64| 1e3 * fe * (1.0 + c);
-    match fc.mode {
-        Mode::C(cp, cn) => {
-            let mut s = 0.0;
-            for i in 0..n {
-                let c = if fc.yb[i] { cp } else { cn };
-                let c = if fc.f32_ { (c as f32) as f64 } else { c };
-                let ys = if fc.yb[i] { 1.0 } else { -1.0 };
-                let al = ys * a[i];
-                s += a[i];
-                ctx.require(al >= 0.0 && al <= c * (1.0 + 4.0 * fe), "box", class, || format!("sample {} (y {}): coefficient {} outside [0,{}]", i, ys, al, c));
-                let yf = ys * f[i];
-                if al < c - delta(c) {
-                    ctx.require(yf >= 1.0 - tol, "kkt_margin", class, || format!("sample {} with alpha {} < C {} lies inside the margin: y f = {}", i, al, c, yf));
-                }
-                if al > delta(c) {
-                    ctx.require(yf <= 1.0 + tol, "kkt_margin", class, || format!("sample {} with alpha {} > 0 lies outside the margin: y f = {}", i, al, yf));
-                }
-            }
-            ctx.require(s.abs() <= 64.0 * fe * (1.0 + sumabs) * (n as f64).sqrt(), "equality", class, || format!("sum of y_i alpha_i = {}", s));
-        }
-        Mode::Nu(nu) => {
-            // published alpha = alpha_raw / r with sum(alpha_raw) = nu * n, 0 <= alpha_raw <= 1:
-            // the bound is 1/r = sum|alpha| / (nu n) and the solver tolerance scales by 1/r too
-            let nu_ = if fc.f32_ { (nu as f32) as f64 } else { nu };
-            let c = sumabs / (nu_ * n as f64);
-            let mut s = 0.0;
-            for i in 0..n {
-                let ys = if fc.yb[i] { 1.0 } else { -1.0 };
-                let al = ys * a[i];
-                s += a[i];
-                ctx.require(al >= 0.0 && al <= c * (1.0 + 1e3 * fe), "box", class, || format!("sample {} (y {}): coefficient {} outside [0, 1/r = {}]", i, ys, al, c));
-                let yf = ys * f[i];
-                if al < c - delta(c) {
-                    ctx.require(yf >= 1.0 - tol * (1.0 + c), "kkt_margin", class, || format!("sample {} with alpha {} < bound {} lies inside the margin: y f = {}", i, al, c, yf));
-                }
-                if al > delta(c) {
-                    ctx.require(yf <= 1.0 + tol * (1.0 + c), "kkt_margin", class, || format!("sample {} with alpha {} > 0 lies outside the margin: y f = {}", i, al, yf));
-                }
-            }
-            ctx.require(s.abs() <= 64.0 * fe * (1.0 + sumabs) * (n as f64).sqrt(), "equality", class, || format!("sum of y_i alpha_i = {}", s));
-        }
-        Mode::OneClass(nu) => {
-            let mut s = 0.0;
-            for i in 0..n {
-                s += a[i];
-                ctx.require(a[i] >= 0.0 && a[i] <= 1.0 + 4.0 * fe, "box", class, || format!("sample {}: coefficient {} outside [0,1]", i, a[i]));
-                if a[i] < 1.0 - delta(1.0) {
-                    ctx.require(f[i] >= -tol, "kkt_margin", class, || format!("sample {} with alpha {} < 1 has decision {} < 0", i, a[i], f[i]));
-                }
-                if a[i] > delta(1.0) {
-                    ctx.require(f[i] <= tol, "kkt_margin", class, || format!("sample {} with alpha {} > 0 has decision {} > 0", i, a[i], f[i]));
-                }
-            }
-            let nu_ = if fc.f32_ { (nu as f32) as f64 } else { nu };
-            ctx.require((s - nu_ * n as f64).abs() <= 64.0 * fe * (1.0 + s.abs()) * n as f64, "equality", class, || format!("sum alpha = {} but nu*n = {}", s, nu_ * n as f64));
-        }
-        Mode::EpsSvr(c, e) => {
-            let c = if fc.f32_ { (c as f32) as f64 } else { c };
-            let mut s = 0.0;
-            for i in 0..n {
-                s += a[i];
-                ctx.require(a[i].abs() <= c * (1.0 + 4.0 * fe), "box", class, || format!("sample {}: coefficient {} outside [-{},{}]", i, a[i], c, c));
-                let res = fc.yr[i] - f[i];
-                let ytol = tol + 16.0 * fe * fc.yr[i].abs();
-                // alpha_i - alpha*_i < C  => (alpha_i not at upper or alpha*_i > 0) : res <= eps
-                if a[i] < c - delta(c) {
-                    ctx.require(res <= e + ytol, "kkt_residual", class, || format!("sample {} coefficient {} < C {}: residual {} > eps {}", i, a[i], c, res, e));
-                }
-                if a[i] > -c + delta(c) {
-                    ctx.require(res >= -e - ytol, "kkt_residual", class, || format!("sample {} coefficient {} > -C: residual {} < -eps {}", i, a[i], res, e));
-                }
-                if a[i] > delta(c) {
-                    ctx.require(res >= e - ytol, "kkt_residual", class, || format!("sample {} coefficient {} > 0: residual {} < eps {}", i, a[i], res, e));
-                }
-                if a[i] < -delta(c) {
-                    ctx.require(res <= -e + ytol, "kkt_residual", class, || format!("sample {} coefficient {} < 0: residual {} > -eps {}", i, a[i], res, e));
-                }
-            }
-            ctx.require(s.abs() <= 64.0 * fe * (1.0 + sumabs) * (n as f64).sqrt(), "equality", class, || format!("sum of coefficients = {}", s));
-        }
-        Mode::NuSvr(_nu, c) => {
-            let c = if fc.f32_ { (c as f32) as f64 } else { c };
-            let mut s = 0.0;
-            for i in 0..n {
-                s += a[i];
-                ctx.require(a[i].abs() <= c * (1.0 + 4.0 * fe), "box", class, || format!("sample {}: coefficient {} outside [-{},{}]", i, a[i], c, c));
-            }
-            ctx.require(s.abs() <= 64.0 * fe * (1.0 + sumabs) * (n as f64).sqrt(), "equality", class, || format!("sum of coefficients = {}", s));
-            // second constraint of the nu-SVR dual: e'(alpha + alpha*) <= C nu n, and sum|alpha_i - alpha*_i| <= e'(alpha + alpha*)
-            let nu_ = if fc.f32_ { (_nu as f32) as f64 } else { _nu };
-            ctx.require(sumabs <= c * nu_ * n as f64 * (1.0 + 1e-6) + 64.0 * fe * (1.0 + sumabs), "nu_constraint", class, || {
-                format!("sum |coefficient| = {} exceeds C nu n = {} (C {} nu {} n {}): nu does not constrain the solution", sumabs, c * nu_ * n as f64, c, nu_, n)
-            });
-            // tube width is a free variable of nu-SVR: all free vectors must share one |residual| = eps >= 0,
-            // zero coefficients lie within it, bounded ones on or outside it
-            let mut lo = 0.0f64; // eps >= lo
-            let mut hi = f64::INFINITY; // eps <= hi
-            for i in 0..n {
-                let res = fc.yr[i] - f[i];
-                if a[i] > delta(c) {
-                    // res >= eps (== if free)
-                    hi = hi.min(res);
-                    if a[i] < c - delta(c) {
-                        lo = lo.max(res);
-                    }
-                } else if a[i] < -delta(c) {
-                    hi = hi.min(-res);
-                    if a[i] > -c + delta(c) {
-                        lo = lo.max(-res);
-                    }
-                } else {
-                    lo = lo.max(res.abs());
-                }
-            }
-            ctx.require(lo <= hi + 2.0 * tol, "kkt_residual", class, || format!("no tube width fits: needs eps >= {} and eps <= {}", lo, hi));
-        }
-    }
+    });
+    finished
 }
 
 pub fn run(em: &mut Em, rng: &mut Rng) {
@@ -824,7 +673,7 @@ pub fn run(em: &mut Em, rng: &mut Rng) {
     // ---- scripted steps
     let nstep = if thorough { 20000 } else { 2500 };
     for _ in 0..nstep {
-        let pr = gen_prob(rng, if thorough { 12 } else { 8 }, false);
+        let pr = gen_prob(rng, if thorough { 12 } else { 8 }, false, false);
         let len = 1 + rng.below(if thorough { 14 } else { 9 });
         let mut sc = vec![];
         for _ in 0..len {
@@ -840,34 +689,25 @@ pub fn run(em: &mut Em, rng: &mut Rng) {
         }
         em.count(&format!("step:bounds={}", pr.bounds_class()));
         em.count(&format!("step:n={}", pr.n));
+        em.count(&format!("step:km={}:nu={}:f={}", pr.km, pr.nu as u8, if pr.f32_ { 32 } else { 64 }));
         op_step(em, &pr, &sc);
     }
     // ---- full solves on small problems
     let nsolve = if thorough { 12000 } else { 1500 };
     for t in 0..nsolve {
-        let mut pr = gen_prob(rng, if thorough { 16 } else { 10 }, true);
+        let mut pr = gen_prob(rng, if thorough { 16 } else { 10 }, true, true);
         // feasible start of C-SVC unless the draw is a general start
-        if t % 3 != 0 {
+        if t % 3 != 0 && !pr.nu && pr.km != 1 {
             pr.a0 = vec![0.0; pr.n];
         }
         let shrinking = t % 4 != 0;
-        em.count(&format!("solve:shrink={}:bounds={}", shrinking as u8, pr.bounds_class()));
-        op_solve(em, &pr, shrinking);
+        let fin = op_solve(em, &pr, shrinking);
+        let key = format!("solve:shrink={}:km={}:nu={}:f={}", shrinking as u8, pr.km, pr.nu as u8, if pr.f32_ { 32 } else { 64 });
+        em.count(&format!("{}:{}", if fin { "solved" } else { "longrun" }, key));
+        if fin && pr.tiny_bounds {
+            em.count("solved:bounds=tiny");
+        }
     }
     // ---- public API fits
-    let nfit = if thorough { 800 } else { 250 };
-    for t in 0..nfit {
-        let n = if thorough {
-            if t % 50 == 0 {
-                1000 + rng.below(1001)
-            } else {
-                10 + rng.below(300)
-            }
-        } else if t % 30 == 0 {
-            400 + rng.below(300)
-        } else {
-            10 + rng.below(120)
-        };
-        op_fit(em, rng, n);
-    }
+    fit::run(em, rng);
 }
